@@ -193,7 +193,7 @@ pub fn generate(tier: &str, _rng: &mut Rng) -> (Vec<String>, bool) {
                     for p in ["ret", "out"] {
                         if input.starts_with("deque") && *f == "rolling2_custom" && false { continue; }
                         let two = f.contains('2');
-                        let len2s: Vec<usize> = if two { vec![len, len.saturating_sub(1), len + 1, 0] } else { vec![len] };
+                        let len2s: Vec<usize> = if two { vec![len, len.saturating_sub(1), len + 1, len + 2, len + 3, 0] } else { vec![len] };
                         for len2 in len2s {
                             // a shorter second series on a real Vec is undefined behaviour caught only by
                             // the debug-profile precondition check (abort): still run it — ABORT is a verdict
@@ -252,5 +252,5 @@ pub fn generate(tier: &str, _rng: &mut Rng) -> (Vec<String>, bool) {
 
 pub fn rule(tier: &str) -> String {
     let n = if tier == "thorough" { 7 } else { 5 };
-    format!("exhaustive: (a) the 6 driver entry points on the instrumented input (LogVec: logs/validates every uget/uslice), on real Vec and on real VecDeque with a rotated (wrapped) ring buffer, returned and caller-buffer paths into the instrumented output (LogOut: counts writes per slot, checked at assume_init), len 0..={}, window 0..=len+3, second series equal/shorter/longer/empty; (b) all {} catalogued rolling entry points, every null subset up to len {}, windows 0..=len+3, min_periods in {{omitted,0,1,w/2,w-1,w}}; (c) vrank / varg_partition / vpartition / vquantile over {{null,1,2}}^len (ties, nulls anywhere), kth 0..=len+1, all flags. Oracle applied to the logs: reads < len, 0<=start<=end<=len, every slot written exactly once when the call returns. non-trivial = len >= 2.", n + 1, ROLL.len(), n)
+    format!("exhaustive: (a) the 6 driver entry points on the instrumented input (LogVec: logs/validates every uget/uslice), on real Vec and on real VecDeque with a rotated (wrapped) ring buffer, returned and caller-buffer paths into the instrumented output (LogOut: counts writes per slot, checked at assume_init), len 0..={}, window 0..=len+3, second series equal / shorter / longer by 1,2,3 / empty; (b) all {} catalogued rolling entry points, every null subset up to len {}, windows 0..=len+3, min_periods in {{omitted,0,1,w/2,w-1,w}}; (c) vrank / varg_partition / vpartition / vquantile over {{null,1,2}}^len (ties, nulls anywhere), kth 0..=len+1, all flags. Oracle applied to the logs: reads < len, 0<=start<=end<=len, every slot written exactly once when the call returns. non-trivial = len >= 2.", n + 1, ROLL.len(), n)
 }
